@@ -1,6 +1,6 @@
 (* C07: the public twin of a transferable key and its export, and the precondition table of private operations.
    pgpy/pgp.py        PGPKey.pubkey (getter), PGPKey.__bytearray__, PGPKey.__or__, is_public / is_unlocked
-   pgpy/packet/packets.py PrivKeyV4.pubkey (Model/KeyPackets.v pubkey_pkt)
+   pgpy/packet/packets.py PrivKeyV4.pubkey (Model/KeyPackets.v pubkey_pkt: partial since repair 3c1c8c6)
    pgpy/decorators.py KeyAction.__call__ / usage / check_attributes
    User-id, user-attribute and signature packets are carried as (header format, tag, body octets): their
    contents are public data whose codecs belong to C05/C08; what matters here is which of them are emitted.
@@ -54,15 +54,51 @@ Definition export (t : tkey) : option bytes := emit_all (export_pkts t).
 
 (* ---------- PGPKey.pubkey ---------- *)
 Definition keym_private (k : keym) : bool := is_private (km_key k).
-(* PrivKeyV4.pubkey(): a FRESH PubKeyV4 / PubSubKeyV4 (new-format header) holding the public fields only *)
-Definition pub_keym (k : keym) : keym :=
-  if keym_private k then {| km_fmt := 1; km_llen := 1; km_key := pubkey_pkt (km_key k) |} else k.
-(* `pub |= subkey.pubkey`: the subkey's own twin — its packet and copies of its signatures *)
-Definition pub_sub (s : subm) : subm := {| sb_key := pub_keym (sb_key s); sb_sigs := sb_sigs s |}.
-(* if self.is_public: return self; else key packet, subkeys, copies of user ids (with their signatures) and signatures *)
-Definition pubkey_of (t : tkey) : tkey :=
+(* PrivKeyV4.pubkey(): a FRESH PubKeyV4 / PubSubKeyV4 (new-format header) holding the public fields only;
+   None = it raises NotImplementedError (opaque private material, repair 3c1c8c6; Model/KeyPackets.v pubkey_pkt) *)
+Definition pub_keym (k : keym) : option keym :=
+  if keym_private k
+  then match pubkey_pkt (km_key k) with
+       | Some p => Some {| km_fmt := 1; km_llen := 1; km_key := p |}
+       | None => None
+       end
+  else Some k.
+(* `pub |= subkey.pubkey`: the subkey's own twin - its packet and copies of its signatures *)
+Definition pub_sub (s : subm) : option subm :=
+  match pub_keym (sb_key s) with
+  | Some k => Some {| sb_key := k; sb_sigs := sb_sigs s |}
+  | None => None
+  end.
+(* the loop over the subkeys: the first refusal propagates out of the getter *)
+Fixpoint pub_subs (l : list subm) : option (list subm) :=
+  match l with
+  | [] => Some []
+  | s :: r =>
+    match pub_sub s, pub_subs r with
+    | Some s', Some r' => Some (s' :: r')
+    | _, _ => None
+    end
+  end.
+(* if self.is_public: return self; else key packet, subkeys, copies of user ids (with their signatures) and signatures.
+   None = the getter raises: an opaque private primary or subkey packet has no public half, so the key has no twin *)
+Definition pubkey_of (t : tkey) : option tkey :=
   if keym_private (t_key t)
-  then {| t_key := pub_keym (t_key t); t_sigs := t_sigs t; t_uids := t_uids t; t_subs := map pub_sub (t_subs t) |}
+  then match pub_keym (t_key t), pub_subs (t_subs t) with
+       | Some k, Some subs => Some {| t_key := k; t_sigs := t_sigs t; t_uids := t_uids t; t_subs := subs |}
+       | _, _ => None
+       end
+  else Some t.
+(* octets of the public export: None = no twin; Some None = KeyError in a packet header *)
+Definition pub_export (t : tkey) : option (option bytes) :=
+  match pubkey_of t with Some p => Some (export p) | None => None end.
+
+(* the code before repair 3c1c8c6 (kept for the refutation theorem): a total function, opaque material emptied *)
+Definition pub_keym_old (k : keym) : keym :=
+  if keym_private k then {| km_fmt := 1; km_llen := 1; km_key := pubkey_pkt_old (km_key k) |} else k.
+Definition pub_sub_old (s : subm) : subm := {| sb_key := pub_keym_old (sb_key s); sb_sigs := sb_sigs s |}.
+Definition pubkey_of_old (t : tkey) : tkey :=
+  if keym_private (t_key t)
+  then {| t_key := pub_keym_old (t_key t); t_sigs := t_sigs t; t_uids := t_uids t; t_subs := map pub_sub_old (t_subs t) |}
   else t.
 
 Definition keys_of (t : tkey) : list keypkt := km_key (t_key t) :: map (fun s => km_key (sb_key s)) (t_subs t).
